@@ -7,6 +7,7 @@ import (
 	"fmt"
 	"net"
 	"sync/atomic"
+	"time"
 
 	"github.com/gocql/gocql/internal/streams"
 )
@@ -318,4 +319,12 @@ func VerifHostByIP(s *Session, ip string) (id string, found bool, nilHost bool) 
 		return "", ok, true
 	}
 	return h.HostID(), ok, false
+}
+
+// VerifRecordAttempt records one finished attempt on q exactly as the query executor does after
+// every attempt (metrics, attempt number handed to the observer); monitors use it to drive the
+// per-query attempt accounting from many goroutines at once.
+func VerifRecordAttempt(q ExecutableQuery, host *HostInfo) {
+	now := time.Now()
+	q.attempt("", now, now, &Iter{}, host)
 }
